@@ -181,16 +181,19 @@ def mon_c02(spec, rec):
     # reported best inside the box when ranges were in force from the first iteration
     if spec.get("ranges") and not any(op[0] == "setranges" for op in spec["ops"]):
         box = (spec["ranges"][0], spec["ranges"][1])
-        cfg = {"penalty": spec.get("penalty"), "constraints": spec.get("constraints"), "ranges": spec.get("ranges")}
+        tl = config_timeline(spec)
         for si, sn in enumerate(rec.snaps):
             if sn["n_stepmon"] == 0 or not is_finite(sn["bestEnergy"]):
                 continue
             best = sn["bestSolution"]
             if not in_box(box, best):
-                moved = K_harness(cfg, best) != best
+                # constraints may have been installed mid-run: any configuration seen so far that moves the vertex
+                moved = any(K_harness(tl[j][0], best) != best for j in range(si + 1))
                 key = "%s/best-outside-box" % spec["solver"]
                 if spec["solver"] == "NM" and moved:
                     key = "NelderMead/best-outside-box/constraints-move-stored-vertex"
+                if spec["solver"] == "Powell" and moved:
+                    key = "Powell/best-outside-box/non-idempotent-constraints-applied-twice"
                 out.append((key, "reported best %r (finite energy %r) lies outside %r" % (best, sn["bestEnergy"], box), {"op_index": si}))
                 break
     return out
@@ -240,6 +243,8 @@ def mon_c04(spec, rec, solver_obj=None):
     out = []
     solver = spec["solver"]
     recon = reconfigured(spec)
+    em_start = 0
+    have_mon = bool(spec.get("evalmon", True))
     performed = 0          # _Step executions (observed as callback + cost activity)
     fin_dups = 0           # Powell: Finalize on a live solver appends a record (F2)
     prev_cb = 0; prev_calls = 0; prev_sm = 0
@@ -260,19 +265,25 @@ def mon_c04(spec, rec, solver_obj=None):
         # evaluation counter: whole life
         if sn["evaluations"] != sn["n_cost_calls"]:
             key = "%s/evaluations-counter" % solver
-            if solver == "DE2" and not spec.get("evalmon", True):
+            if solver == "DE2" and not have_mon:
                 key = "DE2/evaluations-counter/null-evalmon-skips-inf-energies"
+            elif solver == "DE2" and em_start > 0:
+                key = "DE2/evaluations-counter/restarts-with-new-evaluation-monitor"
             out.append((key, "solver.evaluations = %d but the user's cost was called %d times" % (sn["evaluations"], sn["n_cost_calls"]), {"op_index": si}))
             break
-        if spec.get("evalmon", True) and not any(o[0] == "setevalmon" for o in spec["ops"]):
-            if sn["n_evalmon"] != sn["n_cost_calls"]:
-                out.append(("%s/evalmon-length" % solver, "evaluation monitor holds %d records for %d cost calls" % (sn["n_evalmon"], sn["n_cost_calls"]), {"op_index": si}))
+        if op == "setevalmon":
+            if sn["op"][1] or not have_mon:
+                em_start = prev_calls        # new=True, or no monitor before: the fresh monitor starts here
+            have_mon = True
+        if have_mon:
+            if sn["n_evalmon"] != sn["n_cost_calls"] - em_start:
+                out.append(("%s/evalmon-length" % solver, "evaluation monitor holds %d records for %d cost calls since it was installed" % (sn["n_evalmon"], sn["n_cost_calls"] - em_start), {"op_index": si}))
                 break
         # generations
-        if spec.get("callback", True) and not any(o[0] in ("setstepmon",) for o in spec["ops"]):
+        if spec.get("callback", True) and not any(o[0] == "setstepmon" and o[1] for o in spec["ops"]):
             want = max(0, performed - 1)
             if want is not None and sn["generations"] != want:
-                out.append(("Powell/generations-counter/finalize-appends-record" if (solver == "Powell" and sn["generations"] > want and (any(o[0] in ("finalize", "setpenalty", "setconstraints", "setranges") for o in spec["ops"][:si + 1]) or any(q["ret"] is not None or q["op"][0] == "solve" for q in rec.snaps[:si + 1]))) else "%s/generations-counter" % solver, "generations = %d after %d completed iterations (+ initial evaluation)" % (sn["generations"], max(0, performed - 1)), {"op_index": si}))
+                out.append(("Powell/generations-counter/SetGenerationMonitor-drops-pending-record" if (solver == "Powell" and sn["generations"] < want and any(o[0] == "setstepmon" for o in spec["ops"][:si + 1])) else "Powell/generations-counter/finalize-appends-record" if (solver == "Powell" and sn["generations"] > want and (any(o[0] in ("finalize", "setpenalty", "setconstraints", "setranges", "setevalmon") for o in spec["ops"][:si + 1]) or any(q["ret"] is not None or q["op"][0] == "solve" for q in rec.snaps[:si + 1]))) else "%s/generations-counter" % solver, "generations = %d after %d completed iterations (+ initial evaluation)" % (sn["generations"], max(0, performed - 1)), {"op_index": si}))
                 break
         # energy history
         eh = sn["energy_history"]
@@ -287,15 +298,15 @@ def mon_c04(spec, rec, solver_obj=None):
         if (op in ("step", "solve") and sn["ret"] is not None or op == "solve") and not any(o[0] == "setranges" for o in spec["ops"]):
             if sn["n_stepmon"]:
                 if not (same_vec(sn["stepmon_x"][-1], sn["bestSolution"]) and (sn["stepmon_y"][-1] == sn["bestEnergy"])):
-                    out.append(("NelderMead/stepmon-last-not-result/simplex-reset-on-redecoration" if (solver == "NM" and spec.get("ranges") and stopped_before(rec, si)) else ("Powell/stepmon-stale/stop-detected-before-step" if (solver == "Powell" and sn["live"] and op == "step" and d_calls == 0) else "%s/stepmon-last-not-result" % solver), "stopped run: last step record (%r, %r) != reported (%r, %r)" % (sn["stepmon_x"][-1], sn["stepmon_y"][-1], sn["bestSolution"], sn["bestEnergy"]), {"op_index": si}))
+                    out.append(("NelderMead/stepmon-last-not-result/simplex-reset-on-redecoration" if (solver == "NM" and spec.get("ranges") and stopped_before(rec, si)) else ("Powell/stepmon-stale/stop-detected-before-step" if (solver == "Powell" and sn["live"] and op in ("step", "solve") and d_calls == 0) else "%s/stepmon-last-not-result" % solver), "stopped run: last step record (%r, %r) != reported (%r, %r)" % (sn["stepmon_x"][-1], sn["stepmon_y"][-1], sn["bestSolution"], sn["bestEnergy"]), {"op_index": si}))
                 if sn["n_stepmon"] != sn["generations"] + 1:
-                    out.append(("Powell/stepmon-stale/stop-detected-before-step" if (solver == "Powell" and sn["live"] and op == "step" and d_calls == 0) else "%s/stepmon-length" % solver, "stopped run: %d step records for %d generations" % (sn["n_stepmon"], sn["generations"]), {"op_index": si}))
+                    out.append(("Powell/stepmon-stale/stop-detected-before-step" if (solver == "Powell" and sn["live"] and op in ("step", "solve") and d_calls == 0) else "%s/stepmon-length" % solver, "stopped run: %d step records for %d generations" % (sn["n_stepmon"], sn["generations"]), {"op_index": si}))
         prev_cb = sn["n_cb"]; prev_calls = sn["n_cost_calls"]; prev_sm = sn["n_stepmon"]
     # evaluation monitor content == calls in order (checked at the end on the live object)
-    if solver_obj is not None and spec.get("evalmon", True) and not any(o[0] == "setevalmon" for o in spec["ops"]):
+    if solver_obj is not None and have_mon:
         em = solver_obj._evalmon
-        if len(em) == len(rec.cost_calls):
-            for j, (x, y) in enumerate(rec.cost_calls):
+        if len(em) == len(rec.cost_calls) - em_start:
+            for j, (x, y) in enumerate(rec.cost_calls[em_start:]):
                 ex = [float(v) for v in np.ravel(em._x[j])]
                 ey = em._y[j]
                 ey = [float(v) for v in np.ravel(ey)] if np.ndim(ey) else float(ey)
